@@ -28,6 +28,43 @@ def universe(tier, seed):
     return progs
 
 
+def declared(defs, explicit):
+    """{(function, variable): number of declaring statements}; languages without declarations get one synthesised row per variable"""
+    out = {}
+
+    def walk(fn, b):
+        for st in b:
+            if st[0] in ("let", "lets", "arr", "rec", "ford"):
+                out[(fn, st[1])] = out.get((fn, st[1]), 0) + 1
+            for part in st[1:]:
+                if isinstance(part, list) and part and isinstance(part[0], tuple):
+                    walk(fn, part)
+    for fn, params, body in defs:
+        walk(fn, body)
+    return out if explicit else {k: 1 for k in out}
+
+
+def decl_rows(rows):
+    """{(enclosing method name, variable): number of variable_decl rows}"""
+    by_id = {r["id"]: r for r in rows}
+    out = {}
+    for r in rows:
+        if r["op"] != "variable_decl":
+            continue
+        p, fn, hops = r["parent"], None, 0
+        while p and hops < 64:
+            q = by_id.get(p)
+            if q is None:
+                break
+            if q["op"] == "method_decl":
+                fn = q["name"]
+                break
+            p, hops = q["parent"], hops + 1
+        if fn:
+            out[(fn, r["name"])] = out.get((fn, r["name"]), 0) + 1
+    return out
+
+
 def shape(rows):
     """the rows of a unit with statement ids relative to the unit's first row: what must not depend on the other files of the workspace"""
     if not rows:
@@ -102,6 +139,21 @@ def run(tier, seed):
                 continue
             cases.append({"name": "%s@%s" % (name, r.name), "lang": r.name, "rows": [G.machine_row(x) for x in rows], "temps": G.temps_of(rows),
                           "expected": ref[name]["expected"], "start": r.start, "source": job["_files"][sym + r.ext], "check": "out", "flows": [], "param_sources": []})
+    # "no frontend loses a declaration": every declaring statement of the core program has its variable_decl row in the method's GIR
+    defs_of = dict(ok)
+    n_decl = 0
+    for c in cases:
+        if c["name"].endswith("+multi"):
+            continue
+        want = declared(defs_of[c["name"].rsplit("@", 1)[0]], explicit=c["lang"] not in ("python", "php"))
+        have = decl_rows(c["rows"])
+        for (fn, var), k in sorted(want.items()):
+            n_decl += k
+            got = have.get((fn, var), 0) + have.get((fn, "$" + var), 0)
+            if got < k:
+                v.violation("%s:declaration_lost" % c["lang"], {"case": c["name"], "clause": "declaration_lost", "expected": "%d variable_decl row(s) for %s in %s" % (k, var, fn),
+                                                               "got": "%d" % got, "source": c["source"]})
+                break
     # the GIR of a file must not depend on which other languages are analysed in the same run
     single = {c["name"]: c for c in cases}
     n_same = 0
@@ -159,7 +211,7 @@ def run(tier, seed):
     cov = {
         "programs": len(cases), "disagreements_checked": sum(len(c["expected"]) for c in cases),
         "samples": [{"program": c["name"], "source": c["source"][:500], "expected": c["expected"][:3]} for c in cases[:2]],
-        "core_programs": len(ok), "renderings_in_one_multi_language_workspace": n_multi, "of_them_with_gir_identical_to_the_single_language_run": n_same, "renderings_by_language_total_disagreeing": per_lang, "skipped_by_reference": skipped,
+        "core_programs": len(ok), "declarations_checked": n_decl, "renderings_in_one_multi_language_workspace": n_multi, "of_them_with_gir_identical_to_the_single_language_run": n_same, "renderings_by_language_total_disagreeing": per_lang, "skipped_by_reference": skipped,
         "tlc_states": tot["states"], "disagreeing_renderings": n_bad, "known_findings_hit": {k: len(x) for k, x in v.hits.items()},
         "repo": C.repo_head(),
     }
